@@ -76,6 +76,10 @@ type Scenario struct {
 	FailureThreshold string     `json:"failureThreshold,omitempty"`
 	UnreadyEvery     int        `json:"unreadyEvery,omitempty"`
 	NoCanarySvc      bool       `json:"disableGenerateCanaryService,omitempty"`
+	// LeftoverCanarySvc: a Service <service>-canary already exists before the release (left behind by an earlier release
+	// whose Rollout was removed without cleanup): it selects the pods of a revision that no longer exists. The step
+	// that routes traffic must re-point it at the released revision before any request is sent to it.
+	LeftoverCanarySvc bool `json:"leftoverCanaryService,omitempty"`
 	Events           []Injected `json:"events,omitempty"`
 	Pre              []string   `json:"pre,omitempty"` // user actions performed after setup, before the release
 	Profile          string     `json:"profile"`       // uniform | ctrl-eager | env-eager | user-eager
@@ -321,6 +325,13 @@ func (s *Scenario) Install(w *World) error {
 		Spec: corev1.ServiceSpec{Selector: map[string]string{"app": s.Name}, Ports: []corev1.ServicePort{{Port: 80}}}}
 	if err := user.Create(c, svc); err != nil {
 		return err
+	}
+	if s.LeftoverCanarySvc {
+		old := &corev1.Service{ObjectMeta: metav1.ObjectMeta{Name: s.SvcName() + "-canary", Namespace: s.NS},
+			Spec: corev1.ServiceSpec{Selector: map[string]string{"app": s.Name, apps.DefaultDeploymentUniqueLabelKey: "5f6d7c8b9"}, Ports: []corev1.ServicePort{{Port: 80}}}}
+		if err := user.Create(c, old); err != nil {
+			return err
+		}
 	}
 	for _, p := range strings.Split(s.Provider, "+") {
 		switch {
